@@ -322,3 +322,37 @@ def run(repo, rep, tier):  # noqa: F811 -- round-6 remedies (core/round6.py)
 _ADDR6C = ' R08.9: options declared by both Dialect and BaseConfig are read through get_dialect_or_config_option only. R08.10: the four could_be_none decisions (field packer/unpacker, codec encode/decode) carry the same disjuncts (Any/None on the annotated type, unconstrained TypeVar, Optional). R08.11: the omit_default guard is a comparison with the default, never truthiness.'
 EXPLANATION += _ADDR6C
 LEVEL_TEXT += _ADDR6C
+
+
+_run_before_r7df = run
+
+
+def run(repo, rep, tier):  # noqa: F811 -- round 7: CodeBuilder.dataclass_fields evaluated on inheritance shapes (typepreds.py)
+    _run_before_r7df(repo, rep, tier)
+    if getattr(rep, "borrowed", False):
+        return
+    from ..core import typepreds as _tp7df
+    _tp7df.builder_method_cases(repo, rep, "R07.9")
+
+
+_ADDR7DF = (" R07.9: CodeBuilder.dataclass_fields is interpreted from its own source (type-level evaluator, stub builder) on six inheritance shapes "
+            "-- two dataclass bases, an own Field, a bare re-annotation, a finished dataclass, a diamond, no ancestor -- and must return, per "
+            "name, the Field object of the nearest declaring ancestor, as dataclasses itself does.")
+EXPLANATION += _ADDR7DF
+LEVEL_TEXT += _ADDR7DF
+
+
+_run_before_r7a = run
+
+
+def run(repo, rep, tier):  # noqa: F811 -- round-7 remedies / borrowings
+    _run_before_r7a(repo, rep, tier)
+    if getattr(rep, "borrowed", False):
+        return
+    from ..core import round5 as _r5r7
+    _r5r7.helper_call_flags(repo, rep, "R19.10")
+
+
+_ADD_R7A = ' Borrowed: R19.10 (every rendered call of a flag-taking helper -- including the recursive re-entry of a union packer -- forwards get_pack_method_flags(), so omit_none / by_alias / dialect reach nested levels).'
+EXPLANATION += _ADD_R7A
+LEVEL_TEXT += _ADD_R7A
